@@ -87,7 +87,10 @@ def strip_times(d):
 
 
 def is_preprocessed(text):
-    return not any(l.lstrip().startswith("#") for l in text.split("\n")) and "//" not in text and "/*" not in text
+    """no directive and no comment; comment markers INSIDE string / character literals are text, not comments"""
+    import re
+    bare = re.sub(r'"(\\.|[^"\\\n])*"|\'(\\.|[^\'\\\n])*\'', '""', text)
+    return not any(l.lstrip().startswith("#") for l in text.split("\n")) and "//" not in bare and "/*" not in bare
 
 
 def sub_env():
@@ -338,6 +341,11 @@ def gen_file(rng, k, edge):
         a, b, c = rng.sample(["x", "y", "z", "u"], 3)
         txt += (f"int h(int {a}, int {b}, int {c})\n{{\n  while ({a} > 0)\n  {{\n    {b} = foo({c});\n    {a} = {a} + {c};\n  }}\n"
                 f"  while ({c} > 0)\n  {{\n    {b} = {b} * {b};\n    {a} = {b} + {a};\n  }}\n}}\n")
+    if k % 3 == 1:
+        # comment markers inside string literals are not comments: the preprocessor leaves them alone, and so must --no_cpp
+        a, b = rng.sample(["x", "y", "z"], 2)
+        lits = rng.sample(['"a /* b"', '"c */ d"', '"// e"', '"/*"', '"*/"', '"http://h"'], 3)
+        txt += (f"int s(int {a}, int {b})\n{{\n  {a} = {lits[0]}; {b} = {a} + {b}; {a} = {lits[1]};\n  {b} = {b} * {a};\n  {a} = {lits[2]};\n}}\n")
     assert is_preprocessed(txt)
     return f"g{k}", txt
 
